@@ -270,6 +270,9 @@ func (w *world) apply(target string, o wop) {
 		w.c.Add(target)
 	case "sync":
 		w.c.Sync(target)
+	case "refresh":
+		// the collector's periodic metadata refresh (all targets)
+		w.c.UpdateMetadata()
 	}
 }
 
